@@ -77,9 +77,12 @@ def run(tier, work):
     # (b) TLC-generated user hierarchies
     graphs = rng.sample(K.emit(work, stats), 150 if tier == "quick" else 3000)
     user_names = {"foo", "bar", "baz", "mix"}
-    for gr in graphs:
-        dl, _ = K.render(gr, K.PLAIN)
+    from . import c16
+    places = c16.choose_places(work, stats, graphs, rng)
+    for gr, pl in [(gr, None) for gr in graphs] + list(zip(graphs, places)):
+        dl, _ = K.render(gr, K.PLAIN, place=pl)
         g = gr["g"]
+        kind_sfx = "-placed" if pl else ""
         for c in gr["shape"]:
             ar = gr["q"][c]["arity"]
             q = gr["q"][c]
@@ -87,13 +90,13 @@ def run(tier, work):
                               if any(d["name"] == n for d in g["defs"])
                               and all(d["owner"] not in related(g, gr["shape"], c) for d in g["defs"] if d["name"] == n)}
             must_i = {n for n in user_names if q["inst"][n]["k"] == "ok"}
-            text = "\n".join(dl + ["o = %s.new%s" % (K.PLAIN[c], "(1)" if ar == 1 else ""), "o."]) + "\n"
+            text = "\n".join(dl + ["o = %s.new%s" % (K.path_of(c, K.PLAIN, pl), "(1)" if ar == 1 else ""), "o."]) + "\n"
             jobs.append({"files": {"t.rb": text}, "args": ["t.rb", "--suggest", "--row=%d" % (len(dl) + 2)]})
-            meta.append(("user-instance", must_i, unrelated_only, object_names))
+            meta.append(("user-instance" + kind_sfx, must_i, unrelated_only, object_names))
             must_s = {n for n in ("foo", "mix") if q["static"][n]["k"] == "ok"}
-            text = "\n".join(dl + ["%s." % K.PLAIN[c]]) + "\n"
+            text = "\n".join(dl + ["%s." % K.path_of(c, K.PLAIN, pl)]) + "\n"
             jobs.append({"files": {"t.rb": text}, "args": ["t.rb", "--suggest", "--row=%d" % (len(dl) + 1)]})
-            meta.append(("user-class", must_s, unrelated_only, set()))
+            meta.append(("user-class" + kind_sfx, must_s, unrelated_only, set()))
     wr = C.Runner(work, "worker")
     try:
         results = wr.run_many(jobs)
@@ -151,6 +154,8 @@ def judge(kind, must, forbidden, also, out):
     missing = sorted((must | also) - names)
     if missing:
         src = "object-or-kernel" if not (must - names) else "own-or-inherited"
+        if src == "object-or-kernel":
+            group = group.replace("-placed", "")      # one deviation, whatever the namespace
         bad.append(("%s:missing:%s" % (kind if group.startswith("configured") else group, src),
                     "not suggested: %s" % missing[:8]))
     extra = sorted(names & forbidden)
